@@ -214,3 +214,37 @@ example : OutputOk (some b!"github") ∧ b!"GitHub" ≠ b!"text" ∧ b!"GitHub" 
   refine ⟨.inr (.inr rfl), by decide, by decide, by decide, by decide⟩
 
 end Crs.Props
+
+namespace Crs.Props
+open Crs Crs.Cli
+
+/-- **C13 (single file).** `util renumber-tests ARG [--check]` either leaves the tree as it is, or rewrites exactly one
+    file: a file `tests/regression/tests/D/B` whose own name `B` is a test-file name `NNNNNN.yaml|yml`; what is written is
+    the renumbering of that file under the id taken from *its* name (not from the argument), and the status is that
+    file's. All other files — whatever the argument looks like — are out of reach (`setFile_lookup_other`). -/
+theorem C13_single_file (check : Bool) (t : Tree) (arg : Bytes) (r : RunResult) (h : renumberCmd check t arg = some r) :
+    r.tree = t ∨ ∃ d b id c, testFileId? b = some id ∧
+      lookup (b!"tests/regression/tests/" ++ d ++ b!"/" ++ b) t = some c ∧
+      r.tree = setFile (b!"tests/regression/tests/" ++ d ++ b!"/" ++ b) (renumberOne check id c).1 t ∧
+      r.ok = (renumberOne check id c).2 := by
+  unfold renumberCmd at h
+  split at h
+  · simp at h
+  split at h
+  · simp at h
+  · split at h
+    · rename_i d b isFile _
+      split at h
+      · simp only [Option.some.injEq] at h; subst h; exact Or.inl rfl
+      · rename_i id hid
+        split at h
+        · simp only [Option.some.injEq] at h; subst h; exact Or.inl rfl
+        · simp only [] at h
+          split at h
+          · simp only [Option.some.injEq] at h; subst h; exact Or.inl rfl
+          · rename_i c hc
+            simp only [Option.some.injEq] at h; subst h
+            exact Or.inr ⟨d, b, id, c, hid, hc, rfl, rfl⟩
+    · simp only [Option.some.injEq] at h; subst h; exact Or.inl rfl
+
+end Crs.Props
